@@ -64,6 +64,14 @@ def join_case(draw, tier):
     # inputs that are themselves sort views on the join key (ascending or descending): the operator must not take them
     # for sorted input unless they are
     c["upstream"] = [draw(st.sampled_from(["none", "none", "none", "asc", "desc"])) for _ in range(2)]
+    # self-join: ONE table object is both inputs, joined on two different fields of it (boss/id style)
+    if len(lh) >= 2 and draw(st.integers(0, 5)) == 0:
+        c["selfjoin"] = True
+        c["right"] = c["left"]
+        for k in ("key", "lkey", "rkey"):
+            c.pop(k, None)
+        c["keyform"] = "self"
+        c["lkey"], c["rkey"] = lh[0], lh[1]
     return c
 
 
@@ -98,6 +106,9 @@ def check_join(case, ctx):
     ctx.label("fn:" + fn, "keyform:" + case["keyform"], "left-empty" if not lkeys else "left-rows",
               "right-empty" if not rkeys else "right-rows", "none-vs-empty" if none_vs_empty else "regular")
     Ls, Rs = codec.snapshot(case["left"]), codec.snapshot(case["right"])
+    if case.get("selfjoin"):
+        Rs = Ls
+        ctx.label("selfjoin")
     if ups[0] != "none":
         Ls = etl.sort(Ls, tuple(lki), reverse=ups[0] == "desc")
     if ups[1] != "none":
